@@ -40,7 +40,8 @@ FlagsOf(rep, e) ==
   IF e.kind = "pair"
   THEN      Tag("mem",  StoreViol(e.req, RespOf(e.m.resp), StoreObs(e.m.pre), StoreObs(e.m.post)))
        \cup Tag("redb", StoreViol(e.req, RespOf(e.r.resp), StoreObs(e.r.pre), StoreObs(e.r.post)))
-       \cup Tag("diff", DiffViol(e.req, RespOf(e.m.resp), RespOf(e.r.resp), StoreObs(e.m.post), StoreObs(e.r.post)))
+       \cup Tag("diff", DiffViol(e.req, RespOf(e.m.resp), RespOf(e.r.resp), StoreObs(e.m.pre), StoreObs(e.r.pre),
+                                StoreObs(e.m.post), StoreObs(e.r.post)))
   ELSE Tag("cloud", CloudViol(rep, e.req, RespOf(e.c.resp), CloudObsOf(e.c.pre), CloudObsOf(e.c.post)))
 
 VARIABLES l, g, last
